@@ -171,3 +171,51 @@ def op_parse_namespace(job):
 
 
 OPS = {k[3:]: v for k, v in list(globals().items()) if k.startswith('op_')}
+
+
+def op_vault(job):
+    import outrank.feature_transformations.feature_transformer_vault as vault
+    return {k: dict(v) for k, v in vault._tr_global_namespace.items()}
+
+
+def op_transformer_collection(job):
+    from outrank.feature_transformations.ranking_transformers import FeatureTransformerGeneric
+    out = []
+    for preset in job['presets']:
+        try:
+            t = FeatureTransformerGeneric(set(), preset=preset)
+            out.append(dict(t.transformer_collection))
+        except Exception as e:  # noqa: BLE001
+            out.append({'__error__': repr(e)[:200]})
+    return out
+
+
+def op_transform_columns(job):
+    """construct_new_features on single-column frames.  items: {values: [str], preset}."""
+    import logging
+    import warnings
+    import pandas as pd
+    from outrank.feature_transformations.ranking_transformers import FeatureTransformerGeneric
+    logging.disable(logging.CRITICAL)
+    out = []
+    with warnings.catch_warnings():
+        warnings.simplefilter('ignore')
+        np.seterr(all='ignore')
+        for it in job['items']:
+            df = pd.DataFrame({'x': it['values'], 'other': ['k'] * len(it['values'])})
+            before = df.copy(deep=True)
+            try:
+                t = FeatureTransformerGeneric({'x'}, preset=it['preset'])
+                res = t.construct_new_features(df)
+            except Exception as e:  # noqa: BLE001
+                out.append({'error': repr(e)[:300]})
+                continue
+            new = [c for c in res.columns if c not in ('x', 'other')]
+            want = it.get('want')
+            out.append({'new': new if want is None else [c for c in new if c in want],
+                        'values': {c: [str(v) for v in res[c].tolist()] for c in new if want is None or c in want},
+                        'untouched': bool(res[['x', 'other']].equals(before[['x', 'other']]))})
+    return out
+
+
+OPS = {k[3:]: v for k, v in list(globals().items()) if k.startswith('op_')}
